@@ -105,7 +105,18 @@ def tree_family():
     # after packet_family / packet_action (and before/after each other) see different initialisation orders
     for P in ("G", "Z"):
         fam += _tree_family(P)
+    # type names become module and attribute names: a type whose module is called like a documented package or module
+    # (Data -> data, Packet -> packet, ...) competes with it for the same attribute
+    for mod in COLLIDING:
+        for d in ("", "map", "net", "net/client", "pub", "pub/server"):
+            types = spec_tree([(x, x) for x in DIRS], [""], "G")
+            name = mod.capitalize()
+            types[name] = (d, "struct", [])
+            fam.append(("a struct named %s declared in %s" % (name, d or "<root>"), types, "G"))
     return fam
+
+
+COLLIDING = ("data", "encrypt", "packet", "protocol", "map", "net", "pub", "client", "server")
 
 
 def _tree_family(P):
@@ -163,7 +174,7 @@ def run(rep, index):
         # the big tree is explored from every possible first import; single-reference trees from a spread
         big = tname.startswith(("every reference", "no cross"))
         entries = (static + sorted(gen_modules)) if big else (["eolib", "eolib.protocol.net.packet", "eolib.data.eo_reader"] + sorted(
-            k for k in gen_modules if "_struct" in k or "packet" in k))
+            k for k in gen_modules if "_struct" in k or "packet" in k or k.rsplit(".", 1)[-1] in COLLIDING))
         rep.count("first imports explored", len(entries))
         for entry in entries:
             w = World(provider)
